@@ -16,6 +16,7 @@ class Facts:
         self.bodies = {}      # id -> body  (generic ids start with "G:")
         self.hir = {}         # def path -> hir tree
         self.meta = None
+        self.ast_adts = {}    # (file, line, name) -> record with #[serde(..)] attributes from the expanded AST
         complete = False
         with open(path) as f:
             for line in f:
@@ -39,6 +40,8 @@ class Facts:
                     self.statics.append(r)
                 elif k == 'hir':
                     self.hir[r['def']] = r
+                elif k == 'ast_adt':
+                    self.ast_adts[(r['file'], r['line'], r['name'])] = r
                 elif k == 'meta':
                     self.meta = r
                 elif k == 'end':
@@ -91,3 +94,17 @@ def adt_name(ty_str):
         elif depth == 0:
             out.append(ch)
     return ''.join(out).rsplit('::', 1)[-1].strip()
+
+
+def serde_attrs_of(facts, adt):
+    """(type attrs, {variant: attrs}, {(variant, field): attrs}) from the expanded AST."""
+    name = adt['path'].rsplit('::', 1)[-1]
+    rec = facts.ast_adts.get((adt['file'], adt.get('ident_line', adt['line']), name))
+    if rec is None:
+        return None
+    vat = {v['name']: v['attrs'] for v in rec['variants']}
+    fat = {}
+    for v in rec['variants']:
+        for fl in v['fields']:
+            fat[(v['name'], fl['name'])] = fl['attrs']
+    return rec['attrs'], vat, fat
